@@ -254,33 +254,42 @@ structure InclState where
   empty1 : Bool := true
   empty2 : Bool := true
   ret : Option Incl := none      -- early `return`
+deriving DecidableEq, Repr
 
-def inclStep (s : InclState) (v1 v2 : Word) : InclState :=
+/-- the state after an early `return HWLOC_BITMAP_INTERSECTS` (the other fields are dead) -/
+def inclStop : InclState := { result := .intersects, empty1 := false, empty2 := false, ret := some .intersects }
+
+/-- one iteration of the loop, as a function of the six tests the C code performs on the two words:
+`z1 = !val1`, `z2 = !val2`, `eqw = (val1 == val2)`, `subw = ((val1 & val2) == val1)`,
+`supw = ((val1 & val2) == val2)`, `meetw = ((val1 & val2) != 0)` -/
+def inclStepB (s : InclState) (z1 z2 eqw subw supw meetw : Bool) : InclState :=
   if s.ret.isSome then s else
   let upd (r : Incl) : InclState :=
-    { result := r, empty1 := s.empty1 && (v1 == 0#64), empty2 := s.empty2 && (v2 == 0#64), ret := none }
-  let stop : InclState := { s with ret := some .intersects }
-  if v1 = 0#64 then
-    if v2 = 0#64 then s
-    else if s.result = .contains then (if !s.empty2 then stop else upd .different)
+    { result := r, empty1 := s.empty1 && z1, empty2 := s.empty2 && z2, ret := none }
+  if z1 then
+    if z2 then s
+    else if s.result = .contains then (if !s.empty2 then inclStop else upd .different)
     else if s.result = .equal then upd .included
     else upd s.result
-  else if v2 = 0#64 then
-    if s.result = .included then (if !s.empty1 then stop else upd .different)
+  else if z2 then
+    if s.result = .included then (if !s.empty1 then inclStop else upd .different)
     else if s.result = .equal then upd .contains
     else upd s.result
-  else if v1 = v2 then
-    if s.result = .different then stop else upd s.result
-  else if v1 &&& v2 = v1 then
-    if s.result = .contains ∨ s.result = .different then stop else upd .included
-  else if v1 &&& v2 = v2 then
-    if s.result = .included ∨ s.result = .different then stop else upd .contains
-  else if v1 &&& v2 ≠ 0#64 then stop
+  else if eqw then
+    if s.result = .different then inclStop else upd s.result
+  else if subw then
+    if s.result = .contains ∨ s.result = .different then inclStop else upd .included
+  else if supw then
+    if s.result = .included ∨ s.result = .different then inclStop else upd .contains
+  else if meetw then inclStop
   else
-    if s.result = .equal ∧ !s.empty1 then stop
-    else if s.result = .included ∧ !s.empty1 then stop
-    else if s.result = .contains ∧ !s.empty2 then stop
+    if s.result = .equal ∧ !s.empty1 then inclStop
+    else if s.result = .included ∧ !s.empty1 then inclStop
+    else if s.result = .contains ∧ !s.empty2 then inclStop
     else upd .different
+
+def inclStep (s : InclState) (v1 v2 : Word) : InclState :=
+  inclStepB s (v1 == 0#64) (v2 == 0#64) (v1 == v2) (v1 &&& v2 == v1) (v1 &&& v2 == v2) (v1 &&& v2 != 0#64)
 
 def inclFinish (s : InclState) (inf1 inf2 : Bool) : Incl :=
   match s.ret with
